@@ -85,13 +85,14 @@ Inductive event :=
 | EGrow (n : Z) | EShrink (n : Z)
 | EClose
 | ENext (j : Z)
-| ETickClose (k : nat).      (* a supervision pass during which close() is called from the start-up hook
+| ETickClose (k : nat)
+| EJoinShutdown.             (* ResultHandler.finish_at_shutdown: _join_exited_workers(shutdown=True) *)      (* a supervision pass during which close() is called from the start-up hook
                                 of the (k+1)-th worker it starts *)
 
 (* what the call returned / raised, as the harness canonicalises it *)
 Inductive ret :=
 | RNone | RBlocked | RRefused | RNoScanner
-| RExc (code : Z)      (* 10 RestartFreqExceeded 11 ValueError 12 TypeError 13 KeyError 14 AssertionError 15 IndexError *)
+| RExc (code : Z)      (* 10 RestartFreqExceeded 11 ValueError 12 TypeError 13 KeyError 14 AssertionError 15 IndexError 20 WorkersJoined *)
 | RItem (p : payload) | RStop | REmpty | RRaised (p : payload).
 
 (* ------------------------------------------------------------ small helpers *)
@@ -538,6 +539,16 @@ Definition do_tick_close (s : pool) (k : nat) : pool * ret :=
     | _ => (s1, r)
     end.
 
+(* _join_exited_workers(shutdown=True), as the result handler calls it while it waits for the
+   cache to drain after close()/terminate(): expired lost-worker markers are turned into failures
+   FIRST; then, if no worker is left, WorkersJoined is raised; else exited workers are reaped
+   (nobody is replaced and no slot is released on this path) *)
+Definition do_join_shutdown (s : pool) : pool * ret :=
+  match wlist s with
+  | [] => (mark_all_lost s, RExc 20)
+  | _ => (fst (join_exited s), RNone)
+  end.
+
 (* --------------------------------------------------------------- timeout scan *)
 Definition timed_out (s : pool) (start timeout : option Z) : bool :=
   match start, timeout with
@@ -726,6 +737,7 @@ Definition step (s : pool) (e : event) : pool * ret :=
   | EClose => (do_close s, RNone)
   | ENext j => do_next s j
   | ETickClose k => do_tick_close s k
+  | EJoinShutdown => do_join_shutdown s
   end.
 
 (* configuration of a pool: Pool.__init__ *)
